@@ -24,7 +24,7 @@ def pyproof(pid: str, file: str, func: str, props: List[str], modname: str = "m"
     """Decorator: body(E, mod, vc) is run once per path on a module freshly exec'd from the working tree."""
 
     def deco(body: Callable):
-        def run() -> ProofResult:
+        def run(concrete=None) -> ProofResult:
             res = ProofResult(pid=pid, obls=[])
             try:
                 src = loader.read_src(file)
@@ -37,6 +37,7 @@ def pyproof(pid: str, file: str, func: str, props: List[str], modname: str = "m"
                 res.cut_loops = info
                 E = EN.Engine(pid, func, "%s:%d" % (file, line), props, scope=scope,
                               srcfile=loader.os.path.join(loader.REPO, file), max_paths=max_paths)
+                E.concrete = concrete
                 E.explore(lambda: body(E, mod, vc))
                 res.obls = E.obls
                 res.paths = E.completed_paths
